@@ -8,6 +8,7 @@ lock (the linearisation `C03.serializable` promises), replayed ATOMICALLY on the
   s:k:v  c[k]=v      g:k  c[k]          G:k:d  c.get(k,d)     d:k  del c[k]
   p:k    c.pop(k)    P:k:d c.pop(k,d)   D:k:v  c.setdefault   u:pairs  c.update(pairs)
   I      c.popitem() c    c.clear()     C      c.copy()       e:pairs  c == {pairs}
+  n:pairs c != {pairs}                  i:pairs c |= {pairs}
 on_miss is k ↦ 10k+7.  Output:  <result>,<result>,…|<final items sorted>|<eviction order probe>
 -/
 namespace C03.Driver
@@ -51,6 +52,8 @@ def parseOp? (tok : String) : Option (Op Nat Nat) :=
   | ["c"] => some .clear
   | ["C"] => some .copy
   | ["e", ps] => do some (.eq (.pairs (← parsePairs? ps)))
+  | ["n", ps] => do some (.ne (.pairs (← parsePairs? ps)))
+  | ["i", ps] => do some (.ior (.pairs (← parsePairs? ps)))
   | _ => none
 
 def showOut : Out Nat Nat C → String
